@@ -220,6 +220,8 @@ def cqRule (j : Json) : Except String CQ.Rule := do
 def cqSExpr : CQ.SExpr → Json
   | .col t c => Json.arr #[Json.num (Int.ofNat t), Json.num (Int.ofNat c)]
   | .const v => Json.num (JsonNumber.fromInt v)
+  | .bin op a b => Json.mkObj [("bin", Json.arr #[Json.str (match op with | .add => "+" | .sub => "-" | .mul => "*"),
+                                                   cqSExpr a, cqSExpr b])]
 
 def cqRows (rows : List CQ.Row) : Json := Json.arr (rows.map fun r => Json.arr (r.map fun (v : Int) => Json.num (JsonNumber.fromInt v)).toArray).toArray
 
@@ -333,6 +335,59 @@ def handleChecks (j : Json) : Except String Json := do
   return Json.mkObj [("annotated", match a with | some (x, y) => Json.arr #[Json.str x, Json.str y] | none => Json.null),
                      ("distinct", match d with | some p => Json.str p | none => Json.null)]
 
+/-! ### CQ with arithmetic and comparisons -/
+partial def cqExpr (j : Json) : Except String CQ.Expr :=
+  match j.getObjVal? "bin" with
+  | .ok b => do
+    let opS ← (← b.getArrVal? 0).getStr?
+    let op ← match opS with
+      | "+" => pure CQ.ArithOp.add | "-" => pure CQ.ArithOp.sub | "*" => pure CQ.ArithOp.mul
+      | _ => throw ("unknown arithmetic operator " ++ opS)
+    let a ← cqExpr (← b.getArrVal? 1)
+    let c ← cqExpr (← b.getArrVal? 2)
+    pure (.bin op a c)
+  | .error _ => do pure (.term (← cqTerm j))
+
+def cqCmp (s : String) : Except String CQ.CmpOp :=
+  match s with
+  | "<" => pure .lt | "<=" => pure .le | ">" => pure .gt | ">=" => pure .ge | "!=" => pure .ne | "==" => pure .eq
+  | _ => throw ("unknown comparison " ++ s)
+
+def cmpName : CQ.CmpOp → String
+  | .lt => "<" | .le => "<=" | .gt => ">" | .ge => ">=" | .ne => "!=" | .eq => "="
+
+def handleCQX (j : Json) : Except String Json := do
+  let rj ← j.getObjVal? "rule"
+  let head ← rj.getObjValAs? (Array Json) "head"
+  let body ← rj.getObjValAs? (Array Json) "body"
+  let tests ← rj.getObjValAs? (Array Json) "tests"
+  let hs ← head.toList.mapM cqExpr
+  let bs ← body.toList.mapM fun a => do
+    let p ← str a "pred"
+    let args ← a.getObjValAs? (Array Json) "args"
+    let ts ← args.toList.mapM cqTerm
+    pure (⟨p, ts⟩ : CQ.Atom)
+  let ts ← tests.toList.mapM fun t => do
+    let op ← cqCmp (← (← t.getArrVal? 0).getStr?)
+    let a ← cqExpr (← t.getArrVal? 1)
+    let b ← cqExpr (← t.getArrVal? 2)
+    pure (op, a, b)
+  let r : CQ.XRule := ⟨hs, bs, ts⟩
+  let dbj ← j.getObjVal? "db"
+  let tables : List (String × List CQ.Row) ← match dbj with
+    | .obj kvs => kvs.toList.mapM fun (k, v) => do
+        let rows ← (fromJson? v : Except String (Array (Array Int)))
+        pure (k, rows.toList.map Array.toList)
+    | _ => throw "db must be an object"
+  let db : CQ.DB := fun p => ((tables.find? (fun kv => kv.1 == p)).map (·.2)).getD []
+  let q := CQ.xcompile r
+  let sel := Json.mkObj [
+    ("tables", Json.arr (q.tables.map Json.str).toArray),
+    ("tests", Json.arr (q.tests.map fun t => Json.arr #[Json.str (cmpName t.1), cqSExpr t.2.1, cqSExpr t.2.2]).toArray),
+    ("conds", Json.arr (q.conds.map fun p => Json.arr #[cqSExpr p.1, cqSExpr p.2]).toArray),
+    ("sel", Json.arr (q.sel.map cqSExpr).toArray)]
+  return Json.mkObj [("select", sel), ("denote", cqRows (CQ.xdenote db r)), ("sql_rows", cqRows (CQ.evalXSelect db q))]
+
 def handle (j : Json) : Except String Json := do
   let op ← str j "op"
   if ["strlit", "lex", "useflags", "buildflags"].contains op then handleEscape op j
@@ -342,6 +397,7 @@ def handle (j : Json) : Except String Json := do
   else if ["argk", "range_cte"].contains op then handleUdf op j
   else if op == "denote" then Sem.handleDenote j
   else if op == "cq" then handleCQ j
+  else if op == "cqx" then handleCQX j
   else if op == "tysolve" then handleTySolve j
   else if op == "scan" then handleScan j
   else if op == "import_prefixes" then handleImports j
